@@ -1,7 +1,9 @@
 """C05 - for models linear in the parameters the fit returns the GLS solution.
 
 Mode D: complete product of linear problems (design matrices x source mixes x fixed subsets x constraints x
-backends x starting points), each fitted with the real API and compared with the closed form (kmc.gls).
+backends x starting points), each fitted with the real API and compared with the closed form (kmc.gls); the same for the
+other identifiers of the covariance chi2 (fast_math / Cholesky variants) and for fits built by the wrappers xy_fit / indexed_fit
+from every combination of up to two control keywords (p0, dp0, limits, fixed, constraints).
 """
 import itertools
 import warnings
@@ -21,6 +23,8 @@ RULE = (
 ASSUMPTIONS = [
     "tolerances: values 0.03 sigma (iminuit) / 0.05 sigma (scipy); covariance 1e-2 sigma_i sigma_j; chi2 and cost 1e-3; asymmetric = +-sigma within 2 %",
     "scipy asymmetric errors only on the two-parameter problem (1.3 s each)",
+    "cost-identifier problems: starting point P1 and the constraint sets () and (simple-rel, matrix-cor) only; wrapper route: default backend (the wrappers have no minimizer keyword), "
+    "limits contain the solution, relative uncertainties are passed relative to the data (errors_rel_to_model=False) so that the covariance is parameter independent",
 ]
 TOL_VAL = {"iminuit": 0.03, "scipy": 0.05}
 PROBLEMS = [("xy", "linoff"), ("xy", "quadoff"), ("xy", "basis3"), ("indexed", "idx3"), ("xy", "lin@1e-5"), ("xy", "linoff#nodet"), ("indexed", "idx3#nodet")]  # @: y in units x1e-5; #nodet: cost OBJECT without determinant term
@@ -31,6 +35,7 @@ COST_PROBLEMS = [(ft, "%s#%s" % (m, c)) for c in COST_IDS for ft, m in (("xy", "
 PROBLEMS = PROBLEMS + COST_PROBLEMS
 MIX_KINDS = ["y-abs", "y-abs-rho", "y-cov", "y-rel"]
 CONS = [(), ("simple",), ("matrix-cov",), ("simple-rel", "matrix-cor")]
+MIX_GROUPS = 4  # the ten source mixes of a cost-identifier problem are spread over this many jobs
 CONS_COST = [(), ("simple-rel", "matrix-cor")]  # constraint sets / starting points of the cost-identifier problems
 
 
@@ -303,7 +308,8 @@ def jobs(tier, seed):
                 if "@" in prob[1] and backend == "scipy":
                     continue  # the scipy backend is not scale invariant (open finding KF-C15-02); the small-unit problem is run with iminuit
                 if tuple(prob) in COST_PROBLEMS:
-                    specs.append((prob, backend, "ALL", vv, tier))  # all source mixes in one job
+                    for gi in range(MIX_GROUPS):
+                        specs.append((prob, backend, "GROUP%d" % gi, vv, tier))  # several source mixes in one job
                     continue
                 for mi, mix in enumerate(mixes()):
                     specs.append((prob, backend, mix, vv, tier))
@@ -317,7 +323,7 @@ def jobs(tier, seed):
 
 
 def bound(tier, seed):
-    return "7 linear problems (one with y in units x1e-5, two with a cost-function object without determinant term) + 5 multi-fits with shared linear parameters (stacked system; multi-fit constraints, shared source, fixed parameter) x 10 source mixes x all single fixed parameters (+1 pair) x 4 constraint sets x 2 backends x 2 starting points; valuation(s) %s" % ((seed % 3) if tier == "quick" else "0,1,2")
+    return "7 linear problems (one with y in units x1e-5, two with a cost-function object without determinant term) + 5 multi-fits with shared linear parameters (stacked system; multi-fit constraints, shared source, fixed parameter) x 10 source mixes x all single fixed parameters (+1 pair) x 4 constraint sets x 2 backends x 2 starting points; cost identifiers chi2_fast / chi2_covariance / chi2_covariance_fast (Cholesky instead of QR) on the xy and the indexed problem x 10 source mixes x fixed subsets x 2 constraint sets x 2 backends; the wrappers xy_fit (2 models) / indexed_fit as construction route x 5 uncertainty-keyword sets x none, each and every pair of {p0, dp0, limits, fixed with value, fixed without value, one constraint, two constraints} + 4 larger combinations, profile=True; valuation(s) %s" % ((seed % 3) if tier == "quick" else "0,1,2")
 
 
 def build_ops(mix, cons, start, fixed):
@@ -426,12 +432,14 @@ def run_job(spec):
         return run_wrapper_job(spec)
     prob, backend, mix, v, tier = spec
     res = JobResult()
-    for mx in (mixes() if mix == "ALL" else [mix]):
+    grouped = isinstance(mix, str)
+    mine = mixes()[int(mix[5:]) :: MIX_GROUPS] if grouped else [mix]
+    for mx in mine:
         _run_mix(res, prob, backend, tuple(mx), v)
     res.facts["backend:" + backend] += 1
     res.facts["problem:" + prob[1]] += 1
     names = _world(prob[0], prob[1], v, backend).par_names
-    res.sample(dict(problem=list(prob), backend=backend, mix=list(mixes()[0] if mix == "ALL" else mix), valuation=v, example_ops=[list(o) for o in build_ops(mixes()[0] if mix == "ALL" else mix, CONS[1], "P1", (names[0],))]))
+    res.sample(dict(problem=list(prob), backend=backend, mix=list(mine[0]), valuation=v, example_ops=[list(o) for o in build_ops(mine[0], CONS[1], "P1", (names[0],))]))
     return res.as_dict()
 
 
